@@ -78,7 +78,7 @@ Print Assumptions C11_convergence_refuted_nonatomic_refresh.
 Example C11_fixed_on_witnesses :
   (let s := run fixed_variant one_dir (init one_dir empty_dir) witness_linux_mask in
    kq s = [] /\ cq s = [] /\
-   answer one_dir (query fixed_variant one_dir s) = ([("vendor.com/class=dev0", "/etc/cdi/a.json")], [])) /\
+   answer one_dir (query fixed_variant one_dir s) = ([("vendor.com/class=dev0", "/etc/cdi/a.json#t")], [])) /\
   (let s := run fixed_variant one_dir (init one_dir empty_dir) witness_update_order in
    let s' := drain fixed_variant one_dir 2 s in
    kq s' = [] /\ cq s' = [] /\ answer one_dir (query fixed_variant one_dir s') = ([], ["/etc/cdi"]) /\
